@@ -312,7 +312,7 @@ CHECKS = {
     "C08": {
         "level": "exploration",
         "manifest": {
-            "technique": "stateful property-based testing (generated operation histories, replayable as one value): a real SQLite connection commits generated write transactions (DML, bulk growth past the size at open and past the 100-page cache, CREATE/DROP TABLE and INDEX, ALTER, VACUUM, incremental vacuum) between generated reads on one long-lived high-level handle and one long-lived low-level handle with explicit RLock/RUnlock; every read is compared with SQLite's answer at that moment and repeated reads must be identical",
+            "technique": "stateful property-based testing (generated operation histories, replayable as one value): a real SQLite connection commits generated write transactions (DML, bulk growth past the size at open and past the 100-page cache, CREATE/DROP TABLE and INDEX, ALTER, VACUUM, incremental vacuum, growth that leaves the header the way a pre-3.7.0 writer does: in-header size stale) between generated reads on one long-lived high-level handle and one long-lived low-level handle with explicit RLock/RUnlock; every read is compared with SQLite's answer at that moment and repeated reads must be identical",
             "level_text": "Generated histories (read | committed write)* of 2-24 steps, oracle = SQLite on the same connection that wrote (so always the latest committed state), for Select, IndexedSelect, SelectRowid, PKSelect, Columns and low-level Tables/Indexes/Schema/Table.Scan. Sampled.",
             "level_note": "The writer commits each statement (autocommit) and holds no lock during reads; lock interaction is C06/C07. Table shapes are fixed simple ones (rowid alias, plain, WITHOUT ROWID) so that sqlittle accepts every definition.",
         },
@@ -320,7 +320,7 @@ CHECKS = {
                  "seen an intervening commit (classes: after dml / ddl / growth / shrink / vacuum). Distinct = fingerprint of the spec."),
         "assumptions": ["system libsqlite3 (3.40.1) is writer and reference"],
         "min_nontrivial": {"quick": 150, "thorough": 3000},
-        "required_classes": ["handle-opened-mid-transaction", "reads-refused-in-between", "read-while-sibling-handle-in-transaction", "read-while-another-connection-has-an-open-write-transaction", "read-after:dml", "read-after:ddl", "read-after:growth", "read-after:vacuum", "read-after:pagesize", "file-grew", "more-than-100-pages", "short-tail-row-read-twice", "index-redefined-under-its-name", "starts-in-schema-format=2", "starts-in-schema-format=3", "every-row-rewritten", "change-counter-wraps=true", "wal-excursion-with-schema-change"],
+        "required_classes": ["handle-opened-mid-transaction", "reads-refused-in-between", "read-while-sibling-handle-in-transaction", "read-while-another-connection-has-an-open-write-transaction", "read-after:dml", "read-after:ddl", "read-after:growth", "read-after:vacuum", "read-after:pagesize", "file-grew", "more-than-100-pages", "short-tail-row-read-twice", "index-redefined-under-its-name", "starts-in-schema-format=2", "starts-in-schema-format=3", "every-row-rewritten", "change-counter-wraps=true", "wal-excursion-with-schema-change", "file-grown-by-a-writer-that-leaves-the-in-header-size-stale"],
         "timeout": {"quick": 400, "thorough": 2400},
         "jobs": [
             job("history", "c08", ["TestC08History"], 130, 2500, 4, 12),
